@@ -1,4 +1,5 @@
 import MpVerif.C09.Lemmas
+import MpVerif.C09.PipelineLemmas
 /-!
 Line driver for C09.  One scenario per line:
 
@@ -7,7 +8,7 @@ Line driver for C09.  One scenario per line:
 * `<flags>`: `-` or a string over `s e d i x` (wantsol, noecho, dashdash, info, invalid)
 * `<opts>`:  `-` or comma-separated items: tokens `o` (ok), `b` (bad), `v` (invalidValue), `w<n>` (wantsol=n),
              or an option file `F<0|1>:<tok>;<tok>;…` (1 = reading fails after these tokens)
-* `<fault>`: `none` or `<stage>:<raise>[:<code>]`
+* `<fault>`: `none` or a comma-separated list of `<stage>:<raise>[:<code>]` (behaviours of the abstract stages)
 Output: `<outcome> | good=<0/1> regular=<0/1>`; `bad-op` for anything that cannot be interpreted.
 No logic here: only parsing and calls of model functions.
 -/
@@ -48,7 +49,6 @@ def parseRaise (s : String) (code : Option Int) : Option Raise :=
   match s, code with
   | "plain", none => some .plain
   | "withCode", some c => some (.withCode c)
-  | "fmtIntArg", some c => some (.fmtIntArg c)
   | "infeas", none => some .infeas
   | "wrappedInfeas", none => some .wrappedInfeas
   | "solCheck", none => some .solCheck
@@ -61,12 +61,16 @@ def parseRaise (s : String) (code : Option Int) : Option Raise :=
   | "foreign", none => some .foreign
   | _, _ => none
 
-def parseFault (s : String) : Option (Option (Stage × Raise)) :=
-  if s == "none" then some none else
+def parseOneFault (s : String) : Option (Stage × Raise) :=
   match s.splitOn ":" with
-  | [st, r] => do let st ← parseStage st; let r ← parseRaise r none; pure (some (st, r))
-  | [st, r, c] => do let st ← parseStage st; let c ← c.toInt?; let r ← parseRaise r (some c); pure (some (st, r))
+  | [st, r] => do let st ← parseStage st; let r ← parseRaise r none; pure (st, r)
+  | [st, r, c] => do let st ← parseStage st; let c ← c.toInt?; let r ← parseRaise r (some c); pure (st, r)
   | _ => none
+
+/-- `none` or a comma-separated list `stage:raise[:code]`: what the environment does at the abstract stages
+(any number of entries, any order) -/
+def parseFault (s : String) : Option Behaviours :=
+  if s == "none" then some [] else allSome ((s.splitOn ",").map parseOneFault)
 
 def parseBool : String → Option Bool
   | "0" => some false | "1" => some true | _ => none
@@ -86,12 +90,12 @@ def parseScenario (ws : List String) : Option Scenario :=
     let pvars ← pvars.toNat?
     let op ← parseBool op
     let fl ← parseBool fl
-    let fault ← parseFault fault
+    let _bs ← parseFault fault
     let code ← code.toInt?
     let hx ← parseBool hx
     let hp ← parseBool hp
     pure { flags := flags, hasStub := stub, ampl := ampl, opts := opts, objnoTooBig := objno, justExport := jexp,
-           dims := ⟨ncons, nvars⟩, partialDims := ⟨pcons, pvars⟩, out := ⟨op, fl⟩, fault := fault, answer := ⟨code, hx, hp⟩ }
+           dims := ⟨ncons, nvars⟩, partialDims := ⟨pcons, pvars⟩, out := ⟨op, fl⟩, fault := none, answer := ⟨code, hx, hp⟩ }
   | _ => none
 
 partial def loop (h : IO.FS.Stream) (out : IO.FS.Stream) : IO Unit := do
@@ -99,13 +103,16 @@ partial def loop (h : IO.FS.Stream) (out : IO.FS.Stream) : IO Unit := do
   if line.isEmpty then return ()
   match line.trimAscii.toString.splitOn " " with
   | "run" :: ws =>
-    match parseScenario ws with
-    | some sc =>
-      let o := run sc
+    match parseScenario ws, (ws[12]? >>= parseFault) with
+    | some sc0, some bs =>
+      -- the pipeline fold; `good` / `regular` are evaluated on the scenario the fold is equivalent to
+      -- (C09_pipeline_is_table)
+      let o := runP sc0 bs
+      let sc := sc0.withFaults bs
       let g := if decide (Good sc o) then "1" else "0"
       let r := if decide (Regular sc (ending sc)) then "1" else "0"
       out.putStrLn s!"{o.toStr} | good={g} regular={r}"
-    | none => out.putStrLn "bad-op"
+    | _, _ => out.putStrLn "bad-op"
   | _ => out.putStrLn "bad-op"
   loop h out
 
